@@ -148,7 +148,20 @@ func (fv *funcVerifier) merge(a, b *State) *State {
 	cond := a.live
 	n := &State{vars: map[*types.Var]smt.Term{}, heap: map[string]smt.Term{}, ghost: map[string]smt.Term{}}
 	n.live = fv.c.Let("pc", smt.Or(a.live, b.live))
-	for k, va := range a.vars {
+	// deterministic order: the names of merged values (and so the query text) must not depend on
+	// map iteration order
+	avars := make([]*types.Var, 0, len(a.vars))
+	for k := range a.vars {
+		avars = append(avars, k)
+	}
+	sort.Slice(avars, func(i, j int) bool {
+		if avars[i].Pos() != avars[j].Pos() {
+			return avars[i].Pos() < avars[j].Pos()
+		}
+		return avars[i].Name() < avars[j].Name()
+	})
+	for _, k := range avars {
+		va := a.vars[k]
 		if vb, ok := b.vars[k]; ok {
 			if va.S == vb.S {
 				n.vars[k] = va
@@ -195,7 +208,13 @@ func (fv *funcVerifier) merge(a, b *State) *State {
 	} else {
 		n.now = fv.c.Let("now", smt.Ite(cond, a.now, b.now))
 	}
-	for k, va := range a.ghost {
+	gks := make([]string, 0, len(a.ghost))
+	for k := range a.ghost {
+		gks = append(gks, k)
+	}
+	sort.Strings(gks)
+	for _, k := range gks {
+		va := a.ghost[k]
 		if vb, ok := b.ghost[k]; ok {
 			if va.S == vb.S {
 				n.ghost[k] = va
